@@ -1,4 +1,5 @@
 import KV.Wire
+import KV.WireProofs
 /-! # C13 — migration preserves what google/wire would have built
 
 Property statements only.  `Wire.wireEval` is a reference solver for wire provider sets written from wire's
@@ -44,5 +45,112 @@ def cfgFaithful : Cfg :=
 theorem C13_faithful_example :
     (migrate cfgFaithful).isSome = true ∧ V.beq (migratedEval cfgFaithful 8) (wireEval cfgFaithful 8 (.ptr 2)) = true := by
   decide
+
+/-! ## C13_partial — the migration is faithful on the decidable subset `Wire.faithful`
+
+`Wire.faithful c` (see its docstring in `KV/Wire.lean`) says: every `Bind` goes to a named type whose conventional
+constructor `New<T>` is found by name *and is the provider listed in the set*; `FieldsOf` is in pointer form; two
+different items never supply the same type and no item supplies an injector argument (wire's own "multiple bindings"
+rejection); the value form `T` of a `wire.Struct(new(T), …)` is never asked for. -/
+
+/-- **C13 on the faithful subset.**  The migration does not refuse, and for every fuel at which wire's own injector is
+    a complete term (`NoBot`: the fuel sufficed; `NoMissing`: wire resolved every type) the migrated injector computes
+    exactly the same term.  (`C13_statement` restricted to `faithful`, with `=` instead of `V.beq`, under the
+    "wire's term is complete" premise that the fuel asymmetry requires.) -/
+theorem C13_partial (c : Cfg) (h : faithful c = true) :
+    (migrate c).isSome ∧
+    ∀ fuel, NoBot (wireEval c fuel c.ret) → NoMissing (wireEval c fuel c.ret) →
+      migratedEval c fuel = wireEval c fuel c.ret :=
+  migratedEval_faithful c h
+
+/-- the same in the literal shape of `C13_statement` (`V.beq … = true`) -/
+theorem C13_partial_beq (c : Cfg) (h : faithful c = true) (fuel : Nat)
+    (hb : NoBot (wireEval c fuel c.ret)) (hmi : NoMissing (wireEval c fuel c.ret)) :
+    V.beq (migratedEval c fuel) (wireEval c fuel c.ret) = true := by
+  rw [(C13_partial c h).2 fuel hb hmi]; exact V.beq_refl _
+
+/-- every requested type, not only the injector's result — **provided `t` is not the value form of a listed struct** -/
+theorem C13_partial_all_types (c : Cfg) (h : faithful c = true) (ks : List KItem) (hm : migrate c = some ks) :
+    ∀ fuel t, structVal c t = false → NoBot (wireEval c fuel t) → NoMissing (wireEval c fuel t) →
+      kEval ks fuel t = wireEval c fuel t :=
+  migrate_faithful c h ks hm
+
+/-- A larger faithful configuration using every construct.  Injector argument `dsn : b0`;
+    `wire.Struct(new(T0), "*")` (`Config{dsn}`) consumed as `*T0`; `wire.FieldsOf(new(*T0), "Host", "Port")` giving `b1`, `b2`;
+    `NewT1(b1, b2) *T1`; `wire.Bind(new(I0), new(*T1))`; `NewLogger() *T3` (no dependencies);
+    `NewT2(I0, *T3, *T0) *T2`; an unrelated package function that is not in the set. -/
+def cfgBig : Cfg :=
+  let newT1 : Func := { name := ctorName 1, params := [.basic 1, .basic 2], result := .ptr 1 }
+  let newLogger : Func := { name := 5, params := [], result := .ptr 3 }
+  let newT2 : Func := { name := ctorName 2, params := [.iface 0, .ptr 3, .ptr 0], result := .ptr 2 }
+  let helper : Func := { name := 6, params := [.basic 0], result := .ptr 1 }
+  { items := [.structP 0 [.basic 0], .fieldsOf 0 true [.basic 1, .basic 2], .func newT1, .bind 0 (.ptr 1),
+              .func newLogger, .func newT2],
+    args := [.basic 0], ret := .ptr 2, pkgFuncs := [helper, newT1, newLogger, newT2] }
+
+theorem C13_faithful_nonvacuous : faithful cfgFaithful = true ∧ faithful cfgBig = true := by decide
+
+/-- wire resolves both examples completely at fuel 8, so `C13_partial` applies to them non-vacuously -/
+theorem C13_examples_resolved :
+    NoBot (wireEval cfgFaithful 8 cfgFaithful.ret) ∧ NoMissing (wireEval cfgFaithful 8 cfgFaithful.ret) ∧
+    NoBot (wireEval cfgBig 8 cfgBig.ret) ∧ NoMissing (wireEval cfgBig 8 cfgBig.ret) := by decide
+
+/-- what wire builds for `cfgBig`:
+    `NewT2(NewT1((&Config{dsn}).Host, (&Config{dsn}).Port), NewLogger(), &Config{dsn})` -/
+theorem C13_big_value :
+    V.beq (wireEval cfgBig 8 cfgBig.ret)
+      (.call (ctorName 2)
+        [.call (ctorName 1) [.call fieldName [.call (mkPtrName 0) [.arg (.basic 0)]],
+                             .call fieldName [.call (mkPtrName 0) [.arg (.basic 0)]]],
+         .call 5 [],
+         .call (mkPtrName 0) [.arg (.basic 0)]]) = true := by decide
+
+/-- `C13_partial` applied (not re-evaluated): the migrated `cfgBig` computes wire's term -/
+theorem C13_big_agrees : migratedEval cfgBig 8 = wireEval cfgBig 8 cfgBig.ret :=
+  (C13_partial cfgBig C13_faithful_nonvacuous.2).2 8 C13_examples_resolved.2.2.1 C13_examples_resolved.2.2.2
+
+theorem C13_witnesses_not_faithful : faithful cfgBindByName = false ∧ faithful cfgStructValue = false := by decide
+
+/-! ### necessity of the side conditions -/
+
+/-- **Finding: the "for every requested type `t`" form needs `t` not to be a struct's value form.**  This configuration is
+    faithful (`*T0` is requested, nobody consumes `T0`), yet asking the two solvers for `T0` itself differs: wire builds
+    `Config{dsn}`, the migrated declaration has no supplier of `T0` and turns it into an injector parameter. -/
+def cfgValRequest : Cfg :=
+  { items := [.structP 0 [.basic 0]], args := [.basic 0], ret := .ptr 0, pkgFuncs := [] }
+
+theorem C13_val_request_differs :
+    faithful cfgValRequest = true ∧
+    NoBot (wireEval cfgValRequest 8 (.val 0)) ∧ NoMissing (wireEval cfgValRequest 8 (.val 0)) ∧
+    V.beq (wireEval cfgValRequest 8 (.val 0)) (.call (mkName 0) [.arg (.basic 0)]) = true ∧
+    (∀ ks, migrate cfgValRequest = some ks → V.beq (kEval ks 8 (.val 0)) (.arg (.val 0)) = true) := by
+  refine ⟨by decide, by decide, by decide, by decide, ?_⟩
+  intro ks h
+  have : ks = [.provide { name := mkPtrName 0, params := [.basic 0], result := .ptr 0 }] := by
+    have h' : migrate cfgValRequest = some [.provide { name := mkPtrName 0, params := [.basic 0], result := .ptr 0 }] := by
+      decide
+    rw [h'] at h; cases h; rfl
+  subst this; decide
+
+/-- condition 3 is necessary: an injector argument that a listed provider also supplies — wire takes the argument,
+    the migrated injector calls the provider -/
+def cfgArgShadow : Cfg :=
+  let mk : Func := { name := 7, params := [], result := .ptr 1 }
+  { items := [.func mk], args := [.ptr 1], ret := .ptr 1, pkgFuncs := [mk] }
+
+theorem C13_arg_shadow_differs :
+    faithful cfgArgShadow = false ∧ (migrate cfgArgShadow).isSome = true ∧
+    V.beq (wireEval cfgArgShadow 8 (.ptr 1)) (.arg (.ptr 1)) = true ∧
+    V.beq (migratedEval cfgArgShadow 8) (.call 7 []) = true := by decide
+
+/-- the pointer-form restriction on `FieldsOf` is necessary: `wire.FieldsOf(new(T0), …)` reads the fields of the *value*
+    `T0{…}`, the migrated provider reads them from `&T0{…}` -/
+def cfgFieldsValue : Cfg :=
+  { items := [.structP 0 [.basic 0], .fieldsOf 0 false [.basic 1]], args := [.basic 0], ret := .basic 1, pkgFuncs := [] }
+
+theorem C13_fields_value_differs :
+    faithful cfgFieldsValue = false ∧ (migrate cfgFieldsValue).isSome = true ∧
+    V.beq (wireEval cfgFieldsValue 8 (.basic 1)) (.call fieldName [.call (mkName 0) [.arg (.basic 0)]]) = true ∧
+    V.beq (migratedEval cfgFieldsValue 8) (.call fieldName [.call (mkPtrName 0) [.arg (.basic 0)]]) = true := by decide
 
 end C13
